@@ -122,12 +122,12 @@ def run(run):
             raise xl.MachineryError(f'design variant {bad} was not rejected by TLC (NoStale)')
         run.laws[f'variant {bad} rejected'] = rb.violated
     blocks = []
-    for cfg, maxlen in ((('C04_cases.cfg', 3), ('C04_cases_se.cfg', 4)) if quick else (('C04_cases_thorough.cfg', 4), ('C04_cases_se_thorough.cfg', 5))):
+    for cfg, maxlen in ((('C04_cases.cfg', 3),) if quick else (('C04_cases_thorough.cfg', 4), ('C04_cases_se_thorough.cfg', 5))):
         r = run.tlc('MC_C04', cfg, dump=True, timeout=2400)
         blocks += [b for b in pool.dump_blocks(r.dump) if b.count('op |->') >= maxlen + 1]   # maximal histories (obs + hist entries)
     maxlen = 4 if quick else 5
     run.notes['histories_by_shape'] = replay_histories(run, blocks, maxlen)
-    run.rule = (f'all histories of length {maxlen - 1} of Set(input,v) | SetByName | Evaluate(cell) | Get(cell), and of length {maxlen} of Set | Evaluate, on 7 model shapes '
+    run.rule = (('all histories of length 3 of Set(input,v) | SetByName | Evaluate(cell) | Get(cell) on 7 model shapes ' if quick else 'all histories of length 4 of Set | SetByName | Evaluate | Get and of length 5 of Set | Evaluate on 7 model shapes ') +
                 '(chain, diamond with repeated reference, sum over a range with a formula member, overlapping ranges, named input, cross-sheet pair, the same formula text on two sheets); values set include TRUE over a stored 1; '
                 'after every step the response and the stored value of every set/evaluated cell are compared with the specification state; '
                 'every history is a distinct TLC state (history variable)')
